@@ -351,8 +351,13 @@ def make_changer():
                     if chg.expansionData.isTargetComponent(c):
                         tgt.append(ic)
                 comps.append(d)
+            # the target the BLOCK designates (Block.p.axialExpTargetComponent, written by setAxialExpTargetComp, by the
+            # blueprint, or by ExpansionData when it chose one): a function of the current assembly alone
+            nm = b.p.axialExpTargetComponent
+            hits = [ic for ic, c in enumerate(sol) if nm and c.name == nm]
             blocks.append({"type": b.getType(), "h": num(b.getHeight()), "zb": num(b.p.zbottom), "zt": num(b.p.ztop),
-                           "comps": comps, "targets": tgt})
+                           "comps": comps, "targets": tgt, "designated": hits[0] if len(hits) == 1 else None,
+                           "designated_name": nm})
             prev = sol
         return blocks
 
@@ -380,7 +385,7 @@ def request(pre):
     nds = "[" + ",".join(ratlist([c["nd"] for c in b["comps"]]) for b in pre) + "]"
     areas = "[" + ",".join(ratlist([c["area"] for c in b["comps"]]) for b in pre) + "]"
     gs = "[" + ",".join(ratlist([c["g"] for c in b["comps"]]) for b in pre) + "]"
-    targets = "[" + ",".join(opt(b["targets"][0] if b["targets"] else None) for b in pre) + "]"
+    targets = "[" + ",".join(opt(tgt_of(b)) for b in pre) + "]"
     return f"expandg {hs} {zbs} {zts} {nds} {areas} {gs} {geo_arg(pre)} {targets}"
 
 
@@ -388,12 +393,20 @@ def geo_arg(pre):
     return "[" + ",".join("[" + ",".join(ratlist(c["geo"]) for c in b["comps"]) + "]" for b in pre) + "]"
 
 
+def tgt_of(b):
+    """index (among the block's solids) of the block's target component: the one the block designates; for a snapshot
+    without designation the single component ExpansionData reports"""
+    if b.get("designated") is not None:
+        return b["designated"]
+    return b["targets"][0] if len(b["targets"]) == 1 else None
+
+
 def aligned(pre, ib, ic):
     """the linkage hypothesis of target_mass_conserved_partial for component ic of block ib"""
     if ib == 0:
         return pre[0]["zb"] == 0.0
     low = pre[ib]["comps"][ic]["lower"]
-    return low is None or pre[ib - 1]["targets"] == [low]
+    return low is None or tgt_of(pre[ib - 1]) == low
 
 
 def oracle_step(ctx, case, a, pre, post, m_before, H0, top0, mode, f9_budget):
@@ -428,14 +441,23 @@ def oracle_step(ctx, case, a, pre, post, m_before, H0, top0, mode, f9_budget):
             ctx.fail("locator-follows-elevations", "block locator index / z-coordinate and p.z equal the block's mid elevation",
                      dict(case, block=ib), observed=[int(loc.k), zc, float(blk.p.z)], expected=[ib, mid, mid])
     for ib in range(n - 1):
+        pb = pre[ib]
+        want = [] if pb.get("designated") is None else [pb["designated"]]
+        if "designated" in pb and pb["targets"] != want:
+            ctx.fail("targets-are-the-designated-components", "the target components of an expansion are exactly the components "
+                     "the blocks designate NOW (nothing remembered from earlier ExpansionData instances or designations)",
+                     dict(case, block=ib, designated=pb.get("designated_name")),
+                     observed=[pb["comps"][k]["name"] for k in pb["targets"]],
+                     expected=[pb["comps"][k]["name"] for k in want])
+    for ib in range(n - 1):
         b, pb = post[ib], pre[ib]
-        if len(pb["targets"]) != 1:
+        tt = tgt_of(pb)
+        if tt is None:
             continue
-        tt = pb["targets"][0]
         if aligned(pre, ib, tt) and not fclose(b["h"], pb["comps"][tt]["g"] * pb["h"], 1e-12):
             ctx.fail("block-grows-with-target", "a block whose target sits on the block below grows by the target's factor",
                      dict(case, block=ib), observed=b["h"], expected=pb["comps"][tt]["g"] * pb["h"])
-        t = pb["targets"][0]
+        t = tt
         if b["comps"][t]["zt"] != b["zt"]:
             ctx.fail("boundary-follows-target", "the block top is the top of its target component", dict(case, block=ib),
                      observed=b["zt"], expected=b["comps"][t]["zt"])
@@ -605,8 +627,6 @@ def run_sequences(ctx, nseq, collect):
                     break
                 hist.append(sub)
                 pre, post = chg.pre, snapshot(a)
-                if any(len(b["targets"]) > 1 for b in pre):
-                    raise common.Infra("a block with more than one target component: outside the model")
                 oracle_step(ctx, case, a, pre, post, masses(pre), H0, top0, sub, f9_budget)
                 if len(hist) == 1:
                     oracle_linkage(ctx, case, a, chg)
@@ -1672,6 +1692,295 @@ def run_core_mesh(ctx):
         ctx.case(("core-mesh", it, tuple(round(z, 9) for z in ref_mesh)), nontrivial=True)
 
 
+def target_request(b, set_fuel):
+    """`target` request of the model for one real block (what run_targets sends): flags of the block and of all its
+    children, the explicit designation as a child index"""
+    from armi.reactor.converters.axialExpansionChanger.expansionData import TARGET_FLAGS_IN_PREFERRED_ORDER
+    from armi.reactor.flags import Flags
+    from armi.materials import material as mat_mod
+
+    F = [flag_int(x) for x in (Flags.PLENUM, Flags.ACLP, Flags.DUMMY, Flags.FUEL, Flags.CLAD)]
+    pref = "[" + ",".join(str(flag_int(x)) for x in TARGET_FLAGS_IN_PREFERRED_ORDER) + "]"
+    children = list(b)
+    cs = "[" + ",".join(f"[{flag_int(c.p.flags)},{int(not isinstance(c.material, mat_mod.Fluid))}]" for c in children) + "]"
+    explicit = b.p.axialExpTargetComponent
+    if not explicit:
+        ex = "-"
+    else:
+        hits = [k for k, c in enumerate(children) if c.name == explicit]
+        ex = str(hits[0]) if len(hits) == 1 else "x"
+    return (f"target {F[0]} {F[1]} {F[2]} {F[3]} {F[4]} {pref} {'T' if set_fuel else 'F'} {flag_int(b.p.flags)} {ex} {cs}", children)
+
+
+def run_retarget(ctx, collect):
+    """the designated target of a block is CHANGED between expansions of the same assembly (Block.setAxialExpTargetComp /
+    Block.p.axialExpTargetComponent): to a component later in the block's component order, to an earlier one (clad ->
+    fuel), back again; every expansion with a brand-new AxialExpansionChanger / ExpansionData and per-component growth
+    (the old and the new target grow differently). The targets of an expansion are exactly the currently designated
+    components, the boundary follows them, their mass is conserved; and the model's target selection - a function of the
+    block as it is now - is compared with what the new ExpansionData reports on these same objects."""
+    from armi.reactor.converters.axialExpansionChanger.expansionData import ExpansionData
+
+    fx = fixtures()
+    pool = [x for x in fx["assems"] + top_pool(ctx) if "control" not in x.getType()]
+    with common.quiet():
+        pool += [build_assembly(k, [16.0] * (len(k) + 1)) for k in (["fuel", "fuel", "slab"], ["customfuel", "fuel", "holedslab"])]
+    lreq, lchk = LINK
+    for it in range(ctx.pick(14, 150)):
+        a0 = ctx.rng.choice(pool)
+        a = copy.deepcopy(a0)
+        H0, top0 = a.getTotalHeight(), float(a[-1].p.ztop)
+        budget = [0, 0]
+        nsteps = ctx.rng.randint(2, 4)
+        order = ctx.rng.choice(["later-then-earlier", "later-then-earlier", "earlier-then-later", "random"])
+        for k in range(nsteps):
+            # (re-)designate: per block one of its solids, walking through the block's component order
+            changed = []
+            for ib, b in enumerate(a[:-1]):
+                sol = solids(b)
+                if len(sol) < 2 or ctx.rng.random() < 0.25:
+                    continue
+                if order == "random":
+                    c = ctx.rng.choice(sol)
+                else:
+                    late = (k % 2 == 0) == (order == "later-then-earlier")
+                    c = sol[-1 - ctx.rng.randrange(max(1, len(sol) // 2))] if late else sol[ctx.rng.randrange(max(1, len(sol) // 2))]
+                if [x.name for x in sol].count(c.name) != 1:
+                    continue
+                if ctx.rng.random() < 0.5:
+                    b.setAxialExpTargetComp(c)
+                else:
+                    b.p.axialExpTargetComponent = c.name
+                changed.append((ib, c.name))
+            chg, snapshot, iterSolid = make_changer()       # brand new: linkage, ExpansionData, targets
+            set_fuel = ctx.rng.random() < 0.5
+            comps = [c for b in a[:-1] for c in iterSolid(b)]
+            pcts = [1.0 + ctx.rng.choice([-5, -4, -3, -2, -1, 1, 2, 3, 4, 5, 6]) / 256.0 for _ in comps]
+            case = {"assembly": label(a0), "mode": "re-designated targets", "step": k, "order": order,
+                    "designations": changed[:6], "setFuel": set_fuel}
+            chg.pre = None
+            try:
+                with common.quiet():
+                    chg.performPrescribedAxialExpansion(a, comps, pcts, setFuel=set_fuel)
+            except ArithmeticError:
+                ctx.count("refused: negative block height after per-component growth")
+                break
+            except Exception as e:  # noqa
+                ctx.fail("expansion-raises", "a physical expansion of an assembly with a dummy block succeeds", case,
+                         observed=repr(e)[:300])
+                break
+            pre, post = chg.pre, snapshot(a)
+            oracle_step(ctx, case, a, pre, post, masses(pre), H0, top0, "percomp", budget)
+            if all(len(b["targets"]) <= 1 for b in pre):
+                safe_request(ctx, case, pre, collect[0], collect[1], (case, pre, post, [float(x) for x in a.spatialGrid._bounds[2]]))
+            # the model's choice for every block as it is NOW vs a further brand-new ExpansionData on the same objects
+            try:
+                with common.quiet():
+                    ed = ExpansionData(a, set_fuel, False)
+            except Exception as e:  # noqa
+                ctx.fail("expansion-raises", "target selection succeeds on an assembly that was just expanded", case, observed=repr(e)[:200])
+                break
+            for ib, b in enumerate(a[:-1]):
+                rq, children = target_request(b, set_fuel)
+                tg = [j for j, c in enumerate(children) if ed.isTargetComponent(c)]
+                if len(tg) > 1:
+                    ctx.fail("target-unique", "a block has at most one target component", dict(case, block=ib),
+                             observed=[children[j].name for j in tg])
+                    continue
+                lreq.append(rq)
+                lchk.append((dict(case, block=ib, what="target component after re-designation"), "none" if not tg else str(tg[0])))
+            ctx.count("re-designated targets: " + order)
+            ctx.case(("retarget", label(a0), it, k, order, tuple(changed)), nontrivial=bool(changed))
+
+
+def alias_compositions(ctx, a, how=None):
+    """make solid components SHARE one numberDensities dict object, the ways the public API does it: direct assignment of
+    another component's parameter value (c2.p.numberDensities = c1.p.numberDensities; within a block: components of the
+    same material; across blocks: the same pin in the block above), or a clone through updateParamsFrom / copyParamsFrom
+    of the same pin in the block below (all parameter VALUES are shared by reference). Returns the aliased pairs."""
+    pairs = []
+    blocks = list(a[:-1])
+    for ib, b in enumerate(blocks):
+        sol = solids(b)
+        u = ctx.rng.random()
+        method = how or ("within" if u < 0.4 else ("across" if u < 0.7 else ("update" if u < 0.85 else "copy")))
+        if method == "within":
+            by_mat = {}
+            for c in sol:
+                by_mat.setdefault(type(c.material).__name__, []).append(c)
+            groups = [g for g in by_mat.values() if len(g) >= 2]
+            if not groups:
+                continue
+            g = ctx.rng.choice(groups)
+            c1, c2 = ctx.rng.sample(g, 2)
+            if sorted(c1.getNumberDensities()) != sorted(c2.getNumberDensities()):
+                continue
+            c2.p.numberDensities = c1.p.numberDensities
+            pairs.append((ib, c1.name, ib, c2.name, method))
+        elif ib + 1 < len(blocks):
+            up = blocks[ib + 1]
+            for c1 in sol:
+                twins = [c for c in solids(up) if c.name == c1.name and type(c) is type(c1) and
+                         type(c.material) is type(c1.material)]
+                if len(twins) != 1:
+                    continue
+                c2 = twins[0]
+                if method == "across":
+                    c2.p.numberDensities = c1.p.numberDensities
+                elif all(c1.getDimension(k) == c2.getDimension(k) for k in c1.DIMENSION_NAMES) and \
+                        c1.temperatureInC == c2.temperatureInC:
+                    # a clone of an identical pin: every parameter value by reference
+                    if method == "update":
+                        c2.updateParamsFrom(c1)
+                    else:
+                        c2.copyParamsFrom(c1)
+                else:
+                    continue
+                c2.clearCache()
+                pairs.append((ib, c1.name, ib + 1, c2.name, method))
+                break
+    return pairs
+
+
+def run_aliased(ctx, collect):
+    """ALIASED COMPOSITIONS: solid components sharing one numberDensities dict object, then expansions with growth != 1:
+    after EVERY SINGLE step each component's density is 1/g of what it was (not 1/g^2), target and uniformly grown
+    components keep their mass (the clauses of oracle_step), and the result equals that of a twin assembly whose
+    components each own their dict; the aliasing is renewed before later steps wherever the compositions are still equal"""
+    fx = fixtures()
+    pool = fx["assems"] + top_pool(ctx)
+    with common.quiet():
+        pool += [build_assembly(k, [16.0] * (len(k) + 1)) for k in (["fuel", "fuel", "fuel", "slab"], ["slab", "slab", "holedslab"])]
+    for it in range(ctx.pick(24, 250)):
+        mode = ctx.rng.choice(["uniform", "uniform", "percomp", "thermal"])
+        a0 = ctx.rng.choice(pool if mode != "percomp" else [x for x in pool if "control" not in x.getType()])
+        a, twin = copy.deepcopy(a0), copy.deepcopy(a0)
+        how = ctx.rng.choice([None, None, "within", "across", "update", "copy"])
+        with common.quiet():
+            pairs = alias_compositions(ctx, a, how)
+        if not pairs:
+            continue
+        H0, top0 = a.getTotalHeight(), float(a[-1].p.ztop)
+        budget = [0, 0]
+        chg, snapshot, iterSolid = make_changer()
+        ref, _s, _i = make_changer()
+        s0, t0 = snapshot(a), snapshot(twin)
+        if any(not same_state(x, y, 1e-14) for x, y in zip(s0, t0)):
+            ctx.count("aliasing changed the state (compositions differed): skipped")
+            continue
+        for k in range(ctx.rng.randint(1, 3)):
+            case = {"assembly": label(a0), "mode": "aliased-compositions-" + mode, "step": k, "aliased": [list(p) for p in pairs[:5]]}
+            comps = [(ib, c) for ib, b in enumerate(a[:-1]) for c in iterSolid(b)]
+            comps2 = [c for b in twin[:-1] for c in iterSolid(b)]
+            chg.pre = None
+            try:
+                with common.quiet():
+                    if mode == "thermal":
+                        T = ctx.rng.choice([300.0, 350.0, 500.0, 525.0, 600.0])
+                        grid = np.linspace(0.0, H0, 3000)
+                        case["T"] = T
+                        chg.performThermalAxialExpansion(a, list(grid), [T] * 3000, setFuel=True)
+                        ref.performThermalAxialExpansion(twin, list(grid), [T] * 3000, setFuel=True)
+                    else:
+                        if mode == "uniform":
+                            per = {ib: 1.0 + ctx.rng.choice([-8, -5, -3, 2, 4, 7, 12]) / 256.0 for ib in range(len(a))}
+                            pcts = [per[ib] for ib, _c in comps]
+                        else:
+                            pcts = [1.0 + ctx.rng.choice([-5, -3, -2, 2, 3, 5, 6]) / 256.0 for _ in comps]
+                        case["percents"] = pcts[:8]
+                        chg.performPrescribedAxialExpansion(a, [c for _ib, c in comps], pcts, setFuel=True)
+                        ref.performPrescribedAxialExpansion(twin, comps2, pcts, setFuel=True)
+            except ArithmeticError:
+                ctx.count("refused: negative block height after per-component growth")
+                break
+            except Exception as e:  # noqa
+                ctx.fail("expansion-raises", "a physical expansion of an assembly with a dummy block succeeds", case,
+                         observed=repr(e)[:300])
+                break
+            pre, post, tw = chg.pre, snapshot(a), snapshot(twin)
+            oracle_step(ctx, case, a, pre, post, masses(pre), H0, top0, "uniform" if mode == "uniform" else "percomp", budget)
+            for ib, (x, y) in enumerate(zip(post, tw)):
+                if not same_state(x, y, 1e-12):
+                    bad = [cx["name"] for cx, cy in zip(x["comps"], y["comps"]) if not fclose(cx["nd"], cy["nd"], 1e-12)]
+                    ctx.fail("aliased-compositions-equal-own-compositions", "components that share one composition object expand "
+                             "like components that each own theirs", dict(case, block=ib, comps=bad[:4]),
+                             observed=[x["h"]] + [cx["nd"] for cx in x["comps"]][:4], expected=[y["h"]] + [cy["nd"] for cy in y["comps"]][:4])
+            safe_request(ctx, case, pre, collect[0], collect[1], (case, pre, post, [float(x) for x in a.spatialGrid._bounds[2]]))
+            ctx.count("aliased compositions: " + mode)
+            for p in pairs:
+                ctx.count("aliased compositions by: " + p[4])
+            ctx.case(("aliased", label(a0), it, k, mode, tuple(pairs[:3])), nontrivial=True)
+            # renew the aliasing where the two compositions are still the same (after uniform / equal growth)
+            for (ib1, n1, ib2, n2, _m) in pairs:
+                c1 = [c for c in solids(a[ib1]) if c.name == n1][0]
+                c2 = [c for c in solids(a[ib2]) if c.name == n2][0]
+                d1, d2 = c1.getNumberDensities(), c2.getNumberDensities()
+                if sorted(d1) == sorted(d2) and all(d1[q] == d2[q] for q in d1):
+                    c2.p.numberDensities = c1.p.numberDensities
+
+
+def run_alias_cells(ctx):
+    """function-level tie of Component.changeNDensByFactor under sharing: n freshly built components refer to m <= n
+    composition dict objects in a random pattern (direct assignment of p.numberDensities, or updateParamsFrom /
+    copyParamsFrom of the owner), the first components are scaled in turn, every component's density is read back;
+    Model/AxialExp.lean changeAll / densitiesAfter gets the same cells and factors"""
+    from armi.reactor.components.basicShapes import Circle
+
+    req, chk = LINK
+    T = {"Tinput": 25.0, "Thot": 400.0}
+    for _ in range(ctx.pick(60, 600)):
+        n = ctx.rng.randint(2, 6)
+        mat = ctx.rng.choice(["HT9", "UZr", "HT9"])
+        with common.quiet():
+            comps = [Circle(f"c{j}", mat, od=0.8, id=0.0, mult=7.0, **T) for j in range(n)]
+            for c in comps:
+                c.changeNDensByFactor(ctx.rng.randint(64, 512) / 256.0)
+        nuc = sorted(k for k, v in comps[0].getNumberDensities().items() if v > 0)[0]
+        m = ctx.rng.randint(1, n)
+        base = [comps[i].p.numberDensities for i in range(m)]
+        heap = [float(d[nuc]) for d in base]
+        cells = [j if j < m and ctx.rng.random() < 0.5 else ctx.rng.randrange(m) for j in range(n)]
+        how = []
+        for j, c in enumerate(comps):
+            if cells[j] == j:
+                how.append("own")
+                continue
+            u = ctx.rng.random()
+            owner = comps[cells[j]]
+            if u < 0.6 or owner.p.numberDensities is not base[cells[j]]:
+                c.p.numberDensities = base[cells[j]]
+                how.append("assigned")
+            elif u < 0.8:
+                c.updateParamsFrom(owner)
+                how.append("updateParamsFrom")
+            else:
+                c.copyParamsFrom(owner)
+                how.append("copyParamsFrom")
+        fs = [ctx.rng.choice([1.0, 0.5, 2.0, 1.0 + ctx.rng.randint(-20, 20) / 256.0, 256.0 / ctx.rng.randint(240, 270)])
+              for _ in range(ctx.rng.randint(1, n))]
+        case = {"what": "changeNDensByFactor on components sharing compositions", "cells": cells, "how": how, "factors": fs}
+        try:
+            with common.quiet():
+                for c, f in zip(comps, fs):
+                    c.changeNDensByFactor(f)
+            got = [float(c.getNumberDensity(nuc)) for c in comps]
+        except Exception as e:  # noqa
+            ctx.fail("change-ndens-raises", "scaling the density of a component succeeds", case, observed=repr(e)[:200])
+            continue
+        # the property's clause, directly: each scaled component sees its old density times its own factor, once
+        for j, g in enumerate(got):
+            exp = heap[cells[j]] * (fs[j] if j < len(fs) else 1.0)
+            if not fclose(g, exp, 1e-13):
+                ctx.fail("density-scaled-once-per-component", "after scaling, a component's density is its old density times "
+                         "its own factor, whether or not it shared its composition object with another component",
+                         dict(case, component=j), observed=g, expected=exp)
+        req.append(f"alias {ratlist(heap)} {common.intlist(cells)} {ratlist(fs)}")
+        chk.append((case, ("~", got)))
+        for h in set(how):
+            ctx.count("shared composition cells: " + h)
+        ctx.case(("alias-cells", tuple(cells), tuple(how), tuple(fs)), nontrivial=len(set(cells)) < n)
+
+
 def run_thermal_patterns(ctx, collect):
     """call patterns of the thermal path through the public pieces (setAssembly, updateComponentTemp(sBy1DTempField),
     computeThermalExpansionFactors, axiallyExpandAssembly): factors computed once, twice, or after every block's
@@ -1935,7 +2244,7 @@ def compare_links(ctx):
             except Exception:  # noqa
                 okk = False
             if not okk:
-                ctx.disagree("Model/AxialExp.lean blockTemps vs updateComponentTempsBy1DTempField", dict(case, request=rq[:300]),
+                ctx.disagree("Model/AxialExp.lean (numeric list) vs " + str(case.get("what")), dict(case, request=rq[:300]),
                              line[:300], str(impl[1])[:300])
             continue
         if line != impl:
@@ -1956,9 +2265,12 @@ def run(ctx):
     run_store(ctx)
     run_blocktemps(ctx)
     run_thermal_dispatch(ctx)
+    run_alias_cells(ctx)
     run_built(ctx, collect)
     run_state_carry(ctx, collect)
     run_reuse(ctx, collect)
+    run_retarget(ctx, collect)
+    run_aliased(ctx, collect)
     run_thermal_patterns(ctx, collect)
     run_rejects(ctx, collect)
     run_cold_to_hot(ctx)
